@@ -1145,7 +1145,16 @@ func discoverErrUse(p *Program, pkgs map[string]bool, report func(fn *ssa.Functi
 				// (`if err == nil { ... }` or `if !changed || err != nil { return err }`) nothing
 				// runs only on failure, and the error counts as used if anything downstream reads it
 				if joins {
-					if d != bad && !blockReaches(bad, d) {
+					// downstream of the failing edge, but not by going round a loop through the
+					// instruction that produced the error (that would be the next error)
+					var defBlock *ssa.BasicBlock
+					if di, ok := ev.(ssa.Instruction); ok {
+						defBlock = di.Block()
+					}
+					if d != bad && (d == defBlock || !blockReachesAvoiding(bad, d, defBlock)) {
+						continue
+					}
+					if bad == defBlock {
 						continue
 					}
 				} else if !bad.Dominates(d) {
